@@ -412,7 +412,42 @@ def _b_integrate_wrappers(chk):
 
 
 # ------------------------------------------------------------------------------------------------ e
+def _e_wrapper_direction(chk, rule="C11.e"):
+    """The crossing search runs in the time direction that was asked for: the alignment step and the event-terminated
+    integration see the same direction (the alignment moves the state off the plane; searching the other way re-crosses it
+    after ~1e-12 and reports that as the 'half period')."""
+    mod, cls = ri.find_def(SH, "_SingleHitBackend")
+    pe_mod, pe_cls = ri.find_def("hiten.algorithms.poincare.core.events", "_PlaneEvent")
+    for forward in (1, -1):
+        cap = {}
+
+        def integ(system, y, times, event_fn=None, event_cfg=None, **kw):
+            cap["system"] = system
+            return SymObj(None, {"times": to_obj_array([0, R(1)]), "states": to_obj_array([[sp.Symbol(f"a{i}") for i in range(6)], [sp.Symbol(f"b{i}") for i in range(6)]])}, "sol")
+
+        def prop(ip_, a, k):
+            cap["align_forward"] = k.get("forward", a[4] if len(a) > 4 else None)
+            return SymObj(None, {"states": to_obj_array([[sp.Symbol(f"p{i}") for i in range(6)], [sp.Symbol(f"q{i}") for i in range(6)]])}, "sol")
+
+        DYN = sp.Symbol("DYN")
+        ov = {"RungeKutta": lambda ip_, a, k: SymObj(None, {"integrate": integ}, "rk"), "EventConfig": lambda ip_, a, k: SymObj(None, dict(k), "ecfg"),
+              "_propagate_dynsys": prop, "_SectionHit": lambda ip_, a, k: SymObj(None, dict(k), "hit"),
+              "_DirectedSystem": lambda ip_, a, k: ("directed", a[0], k.get("fwd", a[1] if len(a) > 1 else 1))}
+        ip = Interp(overrides=ov)
+        surface = SymObj(ClassRef(pe_mod, pe_cls), {"direction": None, "index": 1, "offset": R(0)}, "surface")
+        be = SymObj(ClassRef(mod, cls), {}, "backend")
+        st0 = to_obj_array([sp.Symbol(f"s{i}") for i in range(6)])
+        ip.apply(ip.getattr(be, "_cross_event_driven"), [st0], {"dynsys": DYN, "surface": surface, "t0": R(1), "tmax": R(4), "forward": forward})
+        sysm = cap.get("system")
+        eff = 1 if sysm == DYN else (sysm[2] if isinstance(sysm, tuple) and sysm[:2] == ("directed", DYN) else None)
+        chk.check(cap.get("align_forward") == forward and eff == forward, rule, f"{SH}::_SingleHitBackend._cross_event_driven[forward={forward}][direction]",
+                  f"forward={forward}: the alignment step runs with forward={cap.get('align_forward')} but the crossing search integrates {sysm} (effective direction {eff})",
+                  sample=f"forward={forward}: alignment and crossing search both run with direction {forward}", nontrivial=(forward == -1))
+    chk.count("functions partially evaluated", 2)
+
+
 def _e_wrapper(chk):
+    _e_wrapper_direction(chk)
     mod, cls = ri.find_def(SH, "_SingleHitBackend")
     pe_mod, pe_cls = ri.find_def("hiten.algorithms.poincare.core.events", "_PlaneEvent")
     for idx, want_fn in ((0, "_g_x0"), (1, "_g_y0"), (2, "_g_z0")):
